@@ -140,7 +140,7 @@ PROPS = {
                     "*_iteration_after_cancel, cancel_is_sticky); the remaining work is the expression in progress"],
     },
     "C07": {
-        "gens": [],
+        "gens": ["Operators"],
         "lean": "Anko.Props.C07",
         "streams": [{"name": "order", "n_quick": 2500, "n_thorough": 40000},
                     {"name": "vm", "n_quick": 2000, "n_thorough": 40000}],
@@ -216,7 +216,7 @@ PROPS = {
                         "error values and environments as operands of == are outside the model"],
     },
     "C05": {
-        "gens": ["Cache"],
+        "gens": ["Cache", "Operators"],
         "lean": "Anko.Props.C05",
         "streams": [{"name": "ops", "n_quick": 4000, "n_thorough": 60000}],
         "trusted": ["FOps instance of the driver = Lean Float = IEEE binary64 = Go float64 on amd64",
